@@ -262,9 +262,14 @@ func bsReplaceAll(s *BStr, old, nw string) *BStr {
 	if len(nw) > len(old) {
 		outCap = (n/len(old))*len(nw) + n%len(old)
 	}
-	// scan state
+	// scan state (8-bit position arithmetic: capacities stay far below 256)
+	if outCap >= 250 || n >= 250 {
+		panic("bsReplaceAll: capacity too large")
+	}
+	i8 := func(i int) *Term { return BV(8, uint64(i)) }
+	len8 := Resize(s.Len, 8, false)
 	skip := BV(8, 0) // positions still covered by the previous match
-	o := BV(64, 0)   // output length so far
+	o := BV(8, 0)    // output length so far
 	type emit struct {
 		at   *Term // output position
 		cond *Term
@@ -272,22 +277,22 @@ func bsReplaceAll(s *BStr, old, nw string) *BStr {
 	}
 	var emits []emit
 	for i := 0; i < n; i++ {
-		inRange := Cmp("<", idx64(i), s.Len, false)
+		inRange := Cmp("<", i8(i), len8, false)
 		skipping := Not(bvEq(skip, BV(8, 0)))
 		m := And(And(inRange, Not(skipping)), bsMatchAt(s, old, i))
 		m = ctx.name(m, "rm")
 		plain := And(And(inRange, Not(skipping)), Not(m))
 		plain = ctx.name(plain, "rp")
 		for k := 0; k < len(nw); k++ {
-			emits = append(emits, emit{at: Arith("+", o, idx64(k), false), cond: m, b: BV(8, uint64(nw[k]))})
+			emits = append(emits, emit{at: Arith("+", o, i8(k), false), cond: m, b: BV(8, uint64(nw[k]))})
 		}
 		emits = append(emits, emit{at: o, cond: plain, b: s.B[i]})
-		o = Ite(m, Arith("+", o, idx64(len(nw)), false), Ite(plain, Arith("+", o, idx64(1), false), o))
+		o = Ite(m, Arith("+", o, i8(len(nw)), false), Ite(plain, Arith("+", o, i8(1), false), o))
 		o = ctx.name(o, "ro")
 		skip = Ite(m, BV(8, uint64(len(old)-1)), Ite(skipping, Arith("-", skip, BV(8, 1), false), BV(8, 0)))
 		skip = ctx.name(skip, "rs")
 	}
-	out := &BStr{ctx: ctx, Len: o}
+	out := &BStr{ctx: ctx, Len: Resize(o, 64, false)}
 	for j := 0; j < outCap; j++ {
 		r := BV(8, 0)
 		for e := len(emits) - 1; e >= 0; e-- {
@@ -295,7 +300,8 @@ func bsReplaceAll(s *BStr, old, nw string) *BStr {
 			if em.cond.IsFalse() {
 				continue
 			}
-			r = Ite(And(em.cond, bvEq(em.at, idx64(j))), em.b, r)
+			// an emit at scan step e/(len(nw)+1) cannot land beyond its own input index + replacement growth
+			r = Ite(And(em.cond, bvEq(em.at, i8(j))), em.b, r)
 		}
 		out.B = append(out.B, ctx.name(r, "rb"))
 	}
